@@ -54,6 +54,8 @@ type Plan struct {
 	// Rejections > 0: after the rotations one more request is issued while the server goes through salts quickly: the
 	// request and each of its re-sent copies arrive just after their salt was retired, Rejections times in a row
 	Rejections int `json:",omitempty"`
+	// SaltReturns: at the end the server returns to the salt that the stored session held at the start
+	SaltReturns bool `json:",omitempty"`
 	// UID: the unique_id of the new_session_created notifications ("" a different one each time, "zero", "same")
 	UID string `json:",omitempty"`
 }
@@ -173,6 +175,11 @@ func build(src scen.Source, keys []refsrv.RSAKeyJSON, p Plan) (*scen.Scenario, e
 		last := salts(len(p.Rotations))
 		steps = append(steps, scen.Step{Op: "bad-salt", Salt: last, N: p.Burst, Push: &scen.PushSpec{Kind: "last-ack", Arg: 4 << 32}},
 			scen.Step{Op: "session-snapshot", Salt: last}, scen.Step{Op: "probe"})
+	}
+	if p.SaltReturns && !p.Fresh && sc.Resume != nil {
+		// the server comes back to the salt the stored session held when the process started (salts are valid for a
+		// period each; a server with a small set of them gets round to the first one again): adopted and stored like any other
+		steps = append(steps, scen.Step{Op: "rotate", Salt: sc.Resume.Salt}, scen.Step{Op: "probe"}, scen.Step{Op: "session-snapshot", Salt: sc.Resume.Salt}, scen.Step{Op: "probe"})
 	}
 	sc.RPC.Steps = steps
 	b, _ := json.Marshal(p)
@@ -400,6 +407,9 @@ func classes(p Plan) ([]string, bool) {
 	if p.Burst > 1 {
 		cls = append(cls, "salt-notifications-in-a-burst")
 	}
+	if p.SaltReturns && !p.Fresh {
+		cls = append(cls, "server-returns-to-the-salt-stored-at-the-start")
+	}
 	if p.StoreFault {
 		cls = append(cls, "store-fails-once-then-same-salt-again")
 	}
@@ -477,6 +487,7 @@ func genPlan(t *rapid.T) Plan {
 			Order: rapid.Uint64().Draw(t, "order")})
 	}
 	p.UID = rapid.SampledFrom([]string{"", "", "zero", "same"}).Draw(t, "new-session-uid")
+	p.SaltReturns = rapid.IntRange(0, 2).Draw(t, "salt-returns") == 0
 	p.AckRejected = rapid.IntRange(0, 2).Draw(t, "ackrejected") == 0
 	p.StoreFault = rapid.IntRange(0, 3).Draw(t, "storefault") == 0
 	if rapid.IntRange(0, 2).Draw(t, "rolling") == 0 {
@@ -551,6 +562,7 @@ func TestC11(t *testing.T) {
 				plans[i].Burst = 2 + i%4
 			}
 			plans[i].StoreFault = i%5 == 2
+			plans[i].SaltReturns = i%4 == 3
 		}
 		stride := run.Pick(5, 1)
 		for i, p := range plans {
